@@ -2,7 +2,7 @@
    Model: Model/C02.v (over Model/C01.v); proofs: Proofs/C02_dec.v, C02.v, C02_struct.v, C02_all.v *)
 From Coq Require Import List NArith ZArith.
 From GoMC Require Import Base.Bytes Base.Dec Gen.Consts Model.C01 Model.C02 Proofs.C01 Proofs.C01_dec Proofs.C01_more
-  Proofs.C02_dec Proofs.C02 Proofs.C02_struct Proofs.C02_all.
+  Proofs.C02_dec Proofs.C02 Proofs.C02_struct Proofs.C02_all Proofs.C02_emb.
 Import ListNotations.
 Open Scope N_scope.
 
@@ -65,6 +65,56 @@ Proof.
   - now apply dyn_exact_doc.
 Qed.
 
+(* EMBEDDED STRUCTS (nbt/typeinfo.go typeFields; type_fields = the table, index sequences included).
+   One field per name: two entries of the table with the same name are the same field (same index sequence) *)
+Theorem C02_fields_unique : forall ds x y, In x (type_fields ds) -> In y (type_fields ds) ->
+  f_name (tf_fi x) = f_name (tf_fi y) -> tf_path x = tf_path y.
+Proof. exact fields_unique. Qed.
+(* Go's rule modified by tags: an entry of the table hides every other reachable field of its name - it is
+   strictly shallower, or as deep and tagged while the other is not (so equal rank leaves no entry at all) *)
+Theorem C02_fields_dominant : forall ds x y, In x (type_fields ds) -> In y (cands_l [] O ds) ->
+  f_name (tf_fi x) = f_name (tf_fi y) -> tf_path x <> tf_path y ->
+  (length (tf_path x) < length (tf_path y))%nat \/
+  (length (tf_path x) = length (tf_path y) /\ tf_tagged x = true /\ tf_tagged y = false).
+Proof. exact fields_dominant. Qed.
+(* the encoder's field loop runs over exactly the entries of the table, in table order, each value fetched
+   through the entry's OWN index sequence (`walk`), entries below a nil embedded pointer left out *)
+Theorem C02_encoder_visits : forall ds vs fs xs, reached (type_fields ds) vs = Some (fs, xs) ->
+  enc_emb ds vs = fields_enc (fun t x => enc t x) fs xs [] /\
+  combine fs xs = flat_map (visit vs) (type_fields ds).
+Proof. exact enc_emb_spec. Qed.
+
+(* depth 3, two siblings at the innermost level (the shape of R3 in the harness): X and Y have different index
+   sequences, each value travels through its own one and comes back in place; P hides nothing, Q is kept *)
+Definition pl (n : list N) : finfo := FInfo n false false false.
+Definition ex_emb : list dfield :=
+  [ DE false [ DE false [ DE false [ DF (pl [88]) false (YInt true 32); DF (pl [89]) false (YInt true 32) ];
+                          DF (pl [81]) false (YInt true 8) ];
+               DF (pl [80]) false (YInt true 16) ];
+    DF (pl [88]) true YStr ].                       (* a tagged X at the top hides the deep X *)
+Definition ex_emb_val : list dv :=
+  [ VE (Some [ VE (Some [ VE (Some [VF (GvInt 1); VF (GvInt 2)]); VF (GvInt 3) ]); VF (GvInt 4) ]); VF (GvStr [120]) ].
+Example C02_ex_embedded :
+  map tf_path (type_fields ex_emb) = [[0;0;0;1]; [0;0;1]; [0;1]; [1]]%nat /\
+  (exists bs, marshal_emb File [] ex_emb ex_emb_val = MOk bs /\
+     unmarshal_emb File ex_emb bs =
+       EDOk [] [ VE (Some [ VE (Some [ VE (Some [VF (GvInt 0); VF (GvInt 2)]); VF (GvInt 3) ]); VF (GvInt 4) ]); VF (GvStr [120]) ] []).
+Proof. split; [vm_compute; reflexivity|]. eexists. split; [vm_compute; reflexivity|]. vm_compute. reflexivity. Qed.
+(* ties: T untagged twice at depth 2 -> no entry; with one tagged T -> that one; a nil embedded pointer is
+   left out by the encoder and stays nil in the fresh variable *)
+Definition ex_tie (tagged : bool) : list dfield :=
+  [ DE false [DF (pl [84]) false (YInt true 8); DF (pl [85]) false (YInt true 8)];
+    DE true [DF (pl [84]) tagged (YInt true 16); DF (pl [86]) false (YInt true 16)] ].
+Example C02_ex_ties :
+  map tf_path (type_fields (ex_tie false)) = [[0;1]; [1;1]]%nat /\
+  map tf_path (type_fields (ex_tie true)) = [[0;1]; [1;0]; [1;1]]%nat /\
+  (exists bs, marshal_emb Net [] (ex_tie true) [VE (Some [VF (GvInt 5); VF (GvInt 6)]); VE None] = MOk bs /\
+     unmarshal_emb Net (ex_tie true) bs = EDOk [] [VE (Some [VF (GvInt 0); VF (GvInt 6)]); VE None] []).
+Proof.
+  split; [vm_compute; reflexivity|]. split; [vm_compute; reflexivity|].
+  eexists. split; [vm_compute; reflexivity|]. vm_compute. reflexivity.
+Qed.
+
 (* ---- non-vacuity: a concrete type with nested structs, names, omitempty, a skipped field, a nil pointer,
    arrays, typed arrays, a map, and both carriers; encoded and decoded by the model *)
 Definition fi (n : list N) (o s : bool) : finfo := FInfo n o false s.
@@ -104,3 +154,6 @@ Print Assumptions C02_roundtrip.
 Print Assumptions C02_no_panic.
 Print Assumptions C02_carrier_raw.
 Print Assumptions C02_carrier_dyn.
+Print Assumptions C02_fields_unique.
+Print Assumptions C02_fields_dominant.
+Print Assumptions C02_encoder_visits.
